@@ -20,6 +20,7 @@
 =================================================================
 """
 import asyncio
+import fcntl
 import gc
 import logging
 import os
@@ -625,6 +626,20 @@ class ParallelEtherCat(FastEtherCat):
                 self.ethertype = randrange(0x3000, 0x6000)
                 continue
 
+    @contextmanager
+    def interface_lock(self):
+        """joining and leaving an interface exclude each other
+
+        otherwise the last one leaving may tear down the dispatcher that a
+        new first one has just installed"""
+        fd = os.open(f'/run/lock/ebpf.{self.addr[0]}.mutex',
+                     os.O_CREAT | os.O_RDWR | os.O_CLOEXEC)
+        try:
+            fcntl.flock(fd, fcntl.LOCK_EX)
+            yield
+        finally:
+            os.close(fd)
+
     def get_mbx_lock(self, no):
         return ParallelMailboxLock(self.mbx_lock_file, no)
 
@@ -639,61 +654,63 @@ class ParallelEtherCat(FastEtherCat):
         os.makedirs(programs, exist_ok=True)
         programs += '/programs'
 
-        tmpdir = tempfile.mkdtemp(dir='/run/lock')
-        lockfile = self.get_ethertype(tmpdir)
-        try:
-            os.rename(tmpdir, lockdir)
-        except OSError:
-            shutil.rmtree(tmpdir)
-            lockfile = self.get_ethertype(lockdir)
+        with self.interface_lock():
+            tmpdir = tempfile.mkdtemp(dir='/run/lock')
+            lockfile = self.get_ethertype(tmpdir)
             try:
-                await super(FastEtherCat, self).connect()
-                self.ebpf = EtherXDP()
+                os.rename(tmpdir, lockdir)
+            except OSError:
+                shutil.rmtree(tmpdir)
+                lockfile = self.get_ethertype(lockdir)
                 try:
-                    self.ebpf.programs = self.programs = obj_get(programs)
-                except FileNotFoundError:
-                    await sleep(0.1)
-                    self.ebpf.programs = self.programs = obj_get(programs)
-            except Exception:
-                os.remove(f'{lockdir}/{lockfile}')
-                raise
-        else:
-            try:
-                await super(FastEtherCat, self).connect()
-                self.ebpf = EtherXDP()
-                self.ebpf.programs = self.programs = \
-                    create_map(MapType.PROG_ARRAY, 4, 4, self.MAX_PROGS)
+                    await super(FastEtherCat, self).connect()
+                    self.ebpf = EtherXDP()
+                    try:
+                        self.ebpf.programs = self.programs = obj_get(programs)
+                    except FileNotFoundError:
+                        await sleep(0.1)
+                        self.ebpf.programs = self.programs = obj_get(programs)
+                except Exception:
+                    os.remove(f'{lockdir}/{lockfile}')
+                    raise
+            else:
                 try:
-                    os.remove(programs)
-                except OSError:
-                    pass
-                else:
-                    logging.error('an old programs file was still at %s',
-                                  programs)
-                await self.ebpf.attach(self.addr[0])
-                self.ebpf.close()
-                obj_pin(programs, self.programs)
-            except Exception:
-                shutil.rmtree(lockdir)
-                raise
-        self.mbx_lock_file = LockFile(f'/run/ebpf/{self.addr[0]}',
-                                      *self.terminal_addr_range)
-        self.fmmu_lock_file = FMMULock(f'/run/ebpf/{self.addr[0]}.fmmu')
+                    await super(FastEtherCat, self).connect()
+                    self.ebpf = EtherXDP()
+                    self.ebpf.programs = self.programs = \
+                        create_map(MapType.PROG_ARRAY, 4, 4, self.MAX_PROGS)
+                    try:
+                        os.remove(programs)
+                    except OSError:
+                        pass
+                    else:
+                        logging.error('an old programs file was still at %s',
+                                      programs)
+                    await self.ebpf.attach(self.addr[0])
+                    self.ebpf.close()
+                    obj_pin(programs, self.programs)
+                except Exception:
+                    shutil.rmtree(lockdir)
+                    raise
+            self.mbx_lock_file = LockFile(f'/run/ebpf/{self.addr[0]}',
+                                          *self.terminal_addr_range)
+            self.fmmu_lock_file = FMMULock(f'/run/ebpf/{self.addr[0]}.fmmu')
         try:
             yield
         finally:
             for v in self.sync_groups.values():
                 v.cancel()
-            os.remove(f'{lockdir}/{lockfile}')
-            try:
-                os.rmdir(lockdir)
-            except OSError:
-                pass
-            else:
-                await self.ebpf.detach(self.addr[0])
-                os.remove(programs)
-                self.mbx_lock_file.remove()
-                self.fmmu_lock_file.remove()
+            with self.interface_lock():
+                os.remove(f'{lockdir}/{lockfile}')
+                try:
+                    os.rmdir(lockdir)
+                except OSError:
+                    pass
+                else:
+                    await self.ebpf.detach(self.addr[0])
+                    os.remove(programs)
+                    self.mbx_lock_file.remove()
+                    self.fmmu_lock_file.remove()
 
     def __getstate__(self):
         return self.addr[0]
